@@ -18,6 +18,9 @@ import (
 	"example.com/scion-time/net/ntp"
 	"example.com/scion-time/net/nts"
 	"example.com/scion-time/net/ntske"
+	"example.com/scion-time/net/udp"
+
+	"github.com/scionproto/scion/pkg/snet"
 
 	"verif.local/kit"
 	"verif.local/mc"
@@ -29,7 +32,7 @@ var steps = []time.Duration{time.Second, 23 * time.Hour, 25 * time.Hour, 49 * ti
 
 func pad4(n int) int { return (n + 3) &^ 3 }
 
-func program(r *mc.Run, interleaved bool, calls int) func(x *mc.X) {
+func program(r *mc.Run, interleaved bool, calls int, overSCION bool) func(x *mc.X) {
 	return func(x *mc.X) {
 		world.Run(r.T, x, func(w *world.World) {
 			server.VerifResetTSS()
@@ -38,6 +41,28 @@ func program(r *mc.Run, interleaved bool, calls int) func(x *mc.X) {
 			c.Auth.Enabled = true
 			c.Auth.NTSKEFetcher = kit.NewFetcher(w)
 			f := &c.Auth.NTSKEFetcher
+			// SCION: the same deployment with the SCION listener and client; the key
+			// exchange still runs over the TLS transport (QUIC is outside the explored system)
+			var sw *kit.SCIONWorld
+			sc := &client.SCIONClient{Log: w.Log, InterleavedMode: interleaved}
+			if overSCION {
+				sw = kit.NewSCIONWorld(w, kit.SrvHost, false, nw.Provider)
+				nw.NTPPort = kit.SrvPort
+				sc.Auth.NTSEnabled = true
+				sc.Auth.NTSKEFetcher = kit.NewFetcher(w)
+				f = &sc.Auth.NTSKEFetcher
+			}
+			spath := kit.PathSpec{Kind: "scion", Segs: []int{2, 2}}.SnetPath(kit.CliIA, kit.SrvIA, net.UDPAddrFromAddrPort(kit.Router))
+			ntsPayload := func(d *vnet.Datagram) []byte {
+				if !overSCION {
+					return d.Data
+				}
+				pr, err := kit.Parse(d.Data)
+				if err != nil || pr.UDP == nil {
+					x.Failf("datagram-undecodable", "%v", err)
+				}
+				return pr.UDP.Payload
+			}
 			sentCookies := map[string]int{}
 			seenReq := 0
 			lastLoss := 0
@@ -55,6 +80,12 @@ func program(r *mc.Run, interleaved bool, calls int) func(x *mc.X) {
 				deadline := time.Now().Add(time.Second)
 				var err error
 				th := w.Go("client", func() {
+					if overSCION {
+						local := udp.UDPAddr{IA: kit.CliIA, Host: &net.UDPAddr{IP: kit.CliHost.AsSlice()}}
+						remote := udp.UDPAddr{IA: kit.SrvIA, Host: &net.UDPAddr{IP: kit.SrvHost.AsSlice(), Port: kit.SrvPort}}
+						_, _, err = client.MeasureClockOffsetSCION(ctx, w.Log, []*client.SCIONClient{sc}, local, remote, []snet.Path{spath})
+						return
+					}
 					_, _, err = client.MeasureClockOffsetIP(ctx, w.Log, c, &net.UDPAddr{IP: net.IPv4(10, 0, 0, 2)}, &net.UDPAddr{IP: net.IPv4(10, 0, 0, 1), Port: 123})
 				})
 				for {
@@ -69,7 +100,7 @@ func program(r *mc.Run, interleaved bool, calls int) func(x *mc.X) {
 					}
 					var sock *vnet.UDPConn
 					for _, sk := range w.Net.Open() {
-						if sk != nw.SrvSock && !sk.Closed() && sk.Reading.Load() {
+						if sk != nw.SrvSock && (sw == nil || (sk != sw.Svc && sk != sw.EH)) && !sk.Closed() && sk.Reading.Load() {
 							sock = sk
 						}
 					}
@@ -99,10 +130,11 @@ func program(r *mc.Run, interleaved bool, calls int) func(x *mc.X) {
 					data := f.VerifData() // pool after the cookie of this request was taken
 					level := len(data.Cookie) + 1
 					var np nts.Packet
-					if len(req.Data) > nts.MaxPacketLen {
-						x.Failf("request-exceeds-max-packet", "request of %d bytes at pool level %d", len(req.Data), level)
+					reqPayload := ntsPayload(req)
+					if len(reqPayload) > nts.MaxPacketLen {
+						x.Failf("request-exceeds-max-packet", "request of %d bytes at pool level %d", len(reqPayload), level)
 					}
-					if e := nts.DecodePacket(&np, req.Data); e != nil {
+					if e := nts.DecodePacket(&np, reqPayload); e != nil {
 						x.Failf("request-undecodable", "pool level %d: %v", level, e)
 					}
 					if len(np.Cookies) != 1 {
@@ -134,7 +166,11 @@ func program(r *mc.Run, interleaved bool, calls int) func(x *mc.X) {
 					}
 					var replies []*vnet.Datagram
 					if loss != 1 {
-						replies = nw.ToServer(req)
+						if overSCION {
+							replies = sw.Send(sw.Svc, kit.Router, req.Data)
+						} else {
+							replies = nw.ToServer(req)
+						}
 						seenReq += len(replies)
 						if len(w.Panics) > 0 {
 							continue
@@ -143,17 +179,18 @@ func program(r *mc.Run, interleaved bool, calls int) func(x *mc.X) {
 					x.Logf("exchange %d: pool level %d, %d placeholders, net=%d, replies=%d", exch, level, len(np.CookiePlaceholders), loss, len(replies))
 					// ---- the reply
 					for _, rp := range replies {
-						if len(rp.Data) > nts.MaxPacketLen {
-							x.Failf("reply-exceeds-max-packet", "reply of %d bytes", len(rp.Data))
+						rpPayload := ntsPayload(rp)
+						if len(rpPayload) > nts.MaxPacketLen {
+							x.Failf("reply-exceeds-max-packet", "reply of %d bytes", len(rpPayload))
 						}
 						var rpk nts.Packet
 						var scratch ntske.Fetcher
-						e := nts.DecodePacket(&rpk, rp.Data)
+						e := nts.DecodePacket(&rpk, rpPayload)
 						if e == nil {
-							e = nts.ProcessResponse(rp.Data, data.S2cKey, &scratch, &rpk, np.UniqueID.ID)
+							e = nts.ProcessResponse(rpPayload, data.S2cKey, &scratch, &rpk, np.UniqueID.ID)
 						}
 						if e != nil {
-							x.Failf("reply-not-authenticable", "reply to a request at pool level %d (%d bytes): %v", level, len(rp.Data), e)
+							x.Failf("reply-not-authenticable", "reply to a request at pool level %d (%d bytes): %v", level, len(rpPayload), e)
 						}
 						got := scratch.VerifData().Cookie
 						if len(got) != 1+len(np.CookiePlaceholders) {
@@ -179,17 +216,20 @@ func program(r *mc.Run, interleaved bool, calls int) func(x *mc.X) {
 							}
 						}
 						var hdr ntp.Packet
-						ntp.DecodePacket(&hdr, rp.Data)
+						ntp.DecodePacket(&hdr, rpPayload)
 					}
 					if loss == 0 && len(replies) == 1 {
 						poolBefore := len(f.VerifData().Cookie)
 						rd := *replies[0]
 						rd.RxTime = w.Clock.Peek()
+						if overSCION {
+							rd.From = kit.Router
+						}
 						sock.Deliver(&rd)
 						w.Settle()
 						poolAfter := len(f.VerifData().Cookie)
 						for _, d := range w.Net.SentSince(seenReq) {
-							if d.Sock != nw.SrvSock && d.Sock != sock {
+							if d.Sock != nw.SrvSock && d.Sock != sock && (sw == nil || (d.Sock != sw.Svc && d.Sock != sw.EH)) {
 								poolAfter++ // the client already took a cookie for its next attempt
 							}
 						}
@@ -272,9 +312,10 @@ func serverSide(r *mc.Run) func(x *mc.X) {
 func TestCheck(t *testing.T) {
 	mc.Main(t, "C11", func(r *mc.Run) {
 		for _, il := range []bool{false, true} {
-			r.Explore(mc.Config{Name: fmt.Sprintf("ip/interleaved=%v", il), Bound: mc.Pick(r, 3, 4)}, program(r, il, mc.Pick(r, 12, 14)))
+			r.Explore(mc.Config{Name: fmt.Sprintf("ip/interleaved=%v", il), Bound: mc.Pick(r, 3, 4)}, program(r, il, mc.Pick(r, 12, 14), false))
+			r.Explore(mc.Config{Name: fmt.Sprintf("scion/interleaved=%v", il), Bound: mc.Pick(r, 2, 3)}, program(r, il, mc.Pick(r, 10, 12), true))
 		}
 		r.Explore(mc.Config{Name: "server-side", Bound: -1, ShardN: 1}, serverSide(r))
-		r.Extra["rule"] = "histories of 12 (14) MeasureClockOffsetIP calls of the real NTS-enabled IPClient against the real listener and key-exchange handler; per exchange {deliver, lose request, lose response} (a run of equal losses is one deviation), between calls a time step in {1s, 23h, 25h, 49h, 73h}; all histories within 3 (4) deviations; every request and reply on the wire is decoded and judged"
+		r.Extra["rule"] = "histories of 12 (14) MeasureClockOffsetIP calls of the real NTS-enabled IPClient (and, with 10 (12) calls within 2 (3) deviations, of the real NTS-enabled SCIONClient against runSCIONServer) against the real listener and key-exchange handler; per exchange {deliver, lose request, lose response} (a run of equal losses is one deviation), between calls a time step in {1s, 23h, 25h, 49h, 73h}; all histories within 3 (4) deviations; every request and reply on the wire is decoded and judged"
 	})
 }
